@@ -90,7 +90,7 @@ Definition pop_cmd (left : bool) (d : db) (args : list bytes) : reply * db :=
   match args with
   | [_; k] => go k None
   | [_; k; c] => match atoi64 c with
-                 | Some n => if n <=? 0 then (err_other, d) else go k (Some n)
+                 | Some n => if n <? 0 then (err_other, d) else go k (Some n)   (* count 0: empty array *)
                  | None => (err_other, d) end
   | _ => (err_other, d)
   end.
